@@ -627,20 +627,248 @@ def rule_offset(db, chk, cfg, rule="POLY.offset"):
     vx, vy = V("v.x"), V("v.y")
     judge(f.qual, "round.step", g.get("x").same(vx * c - s_ * vy) and g.get("y").same(vx * s_ + vy * c), "each step turns the offset vector by the rotation "
           "(step_cos_, step_sin_): v' = (v.x c - v.y s, v.x s + v.y c)", rot[2], "%s, %s" % (_short(g.get("x"), 40), _short(g.get("y"), 40)))
-    # OffsetPoint: sin_a, cos_a
+    # OffsetPoint: the cosine handed to DoMiter and the angle handed to DoRound (whatever the locals are called, inlined or not)
     f = db.one("ClipperOffset::OffsetPoint")
     pe = PolyEval(db, extended=True)
     pe.bind_block(f.body)
-    decls = {d.get("name"): d for st in walk(f.body) if st.get("kind") == "DeclStmt" for d in kids(st) if d.get("kind") == "VarDecl"}
-    for nm, want, text in (("sin_a", nk[0] * nj[1] - nk[1] * nj[0], "sin_a == norms[k] x norms[j] (positive for a left turn)"),
-                           ("cos_a", nk[0] * nj[0] + nk[1] * nj[1], "cos_a == norms[k] . norms[j]")):
-        d = decls.get(nm)
-        if d is None or pe.env.get(d.get("id")) is None or not isinstance(pe.env[d["id"]], Rat):
-            raise AnalysisBroken("POLY.offset: local %s of OffsetPoint not found or not arithmetic" % nm)
-        judge(f.qual, nm, pe.env[d["id"]].same(want), text, d, _short(pe.env[d["id"]], 70))
+    want_sin = nk[0] * nj[1] - nk[1] * nj[0]
+    want_cos = nk[0] * nj[0] + nk[1] * nj[1]
+    seen = 0
+    for c in walk(f.body):
+        if c.get("kind") not in ("CXXMemberCallExpr", "CallExpr"):
+            continue
+        nm = db.callee(c)[0]
+        a = db.call_args(c)
+        if nm == "DoMiter" and len(a) >= 4:
+            seen += 1
+            try:
+                v = pe.ev(a[3])
+            except Unsupported as e:
+                raise AnalysisBroken("POLY.offset: the cosine handed to DoMiter is not arithmetic: %s" % e)
+            judge(f.qual, "cos@%s" % c.get("line"), v.same(want_cos), "the cosine handed to DoMiter == norms[k] . norms[j]", c, _short(v, 70))
+        if nm == "DoRound" and len(a) >= 4:
+            seen += 1
+            try:
+                v = pe.ev(a[3])
+            except Unsupported as e:
+                raise AnalysisBroken("POLY.offset: the angle handed to DoRound is not arithmetic: %s" % e)
+            ok = False
+            syms = [x for x in v.vars() if x in UFUNCS and UFUNCS[x][0] == "atan2"]
+            if len(syms) == 1 and v.same(V(syms[0])):
+                sa, ca = UFUNCS[syms[0]][1]
+                ok = sa.same(want_sin) and ca.same(want_cos)
+            judge(f.qual, "angle@%s" % c.get("line"), ok, "the angle handed to DoRound == atan2(norms[k] x norms[j], norms[k] . norms[j]) (positive for a left turn)", c, _short(v, 90))
+    if seen < 2:
+        raise AnalysisBroken("POLY.offset: OffsetPoint hands no cosine to DoMiter / angle to DoRound (%d sites)" % seen)
     return n
 
 
 def _clone(pe):
     q = PolyEval(pe.db, dict(pe.env), extended=pe.extended)
     return q
+
+
+# ---------------------------------------------------------------------------
+# POLY.utilities: Ellipse, TranslatePath (C20)
+# ---------------------------------------------------------------------------
+
+def rule_utilities(db, chk, cfg, rule="POLY.utilities"):
+    """Ellipse(center, rx, ry, steps): the first vertex is center + (rx, 0); inside the loop the vertex appended is
+    center + (rx*dx, ry*dy) and (dx, dy) is then turned by the rotation (co, si) - the new dy is computed from the *old* dx;
+    (dx, dy) starts as (co, si) = (cos A, sin A) of one and the same angle A.  TranslatePath / TranslatePoint add (dx, dy)."""
+    from ..poly import UFUNCS, Agg
+    n = 0
+
+    def judge(fq, key, ok, text, node, got=None):
+        nonlocal n
+        n += 1
+        chk.instance(rule, {"function": fq, "equation": text, "cfg": cfg}, ok=ok)
+        if not ok:
+            chk.violation(rule, fq, key, "%s: %s does not hold%s" % (fq, text, (" (found %s)" % got) if got else ""), where(node) if isinstance(node, dict) else node, cfg=cfg)
+
+    for f in [g for g in db.find("Ellipse") if not g.is_pattern and g.body is not None and len(g.params) == 4]:
+        c, rx, ry, steps = [_pname(f, i) for i in range(4)]
+        loops = [l for l in kids(f.body) if isinstance(l, dict) and l.get("kind") == "ForStmt"]
+        if len(loops) != 1:
+            raise AnalysisBroken("POLY.utilities: Ellipse no longer has a single top-level loop")
+        pe = PolyEval(db, extended=True)
+        firsts = []
+
+        def on_expr(ev, s, firsts=firsts):
+            s0 = _skip(s)
+            if s0.get("kind") == "CXXMemberCallExpr" and db.callee(s0)[0] in ("emplace_back", "push_back"):
+                a = db.call_args(s0)
+                try:
+                    firsts.append((ev.ev(a[0]), ev.ev(a[1]), s0) if len(a) >= 2 else (ev._agg_of(a[0]).get("x"), ev._agg_of(a[0]).get("y"), s0))
+                except Unsupported:
+                    firsts.append((None, None, s0))
+        pe.on_expr = on_expr
+        pe.bind_block(f.body)
+        if len(firsts) != 1 or firsts[0][0] is None:
+            raise AnalysisBroken("POLY.utilities: Ellipse does not append exactly one arithmetic vertex before its loop")
+        judge(f.qual, "first|" + f.sig[:30], firsts[0][0].same(V(c + ".x") + V(rx)) and firsts[0][1].same(V(c + ".y")), "first vertex == center + (radiusX, 0)", firsts[0][2],
+              "%s, %s" % (_short(firsts[0][0], 40), _short(firsts[0][1], 40)))
+        # the two direction cosines before the loop
+        decl = {d.get("name"): d for st in kids(f.body) if st.get("kind") == "DeclStmt" for d in kids(st) if d.get("kind") == "VarDecl"}
+        trig = {}
+        for d in decl.values():
+            v = pe.env.get(d.get("id"))
+            if isinstance(v, Rat):
+                for sname in v.vars():
+                    if sname in UFUNCS and UFUNCS[sname][0] in ("sin", "cos") and v.same(V(sname)):
+                        trig.setdefault(UFUNCS[sname][0], []).append((d, sname))
+        # loop body with symbolic direction (dx0, dy0)
+        body = kids(loops[0])[-1]
+        # which locals are the direction?  those assigned in the body and read in the appended vertex
+        assigned = [(_skip(kids(x)[0]), x) for x in walk(body) if x.get("kind") == "BinaryOperator" and x.get("opcode") == "=" and _skip(kids(x)[0]).get("kind") == "DeclRefExpr"]
+        outer = {a.get("referencedDecl", {}).get("id"): a.get("referencedDecl", {}).get("name") for a, _ in assigned
+                 if any(d.get("id") == a.get("referencedDecl", {}).get("id") for d in decl.values())}
+        if len(outer) != 2:
+            raise AnalysisBroken("POLY.utilities: Ellipse's loop does not update exactly two outer locals (the direction)")
+        pb = PolyEval(db, dict(pe.env), extended=True)
+        for vid, nm in outer.items():
+            pb.env[vid] = V(nm + "0")
+        app = []
+
+        def on_expr2(ev, s):
+            s0 = _skip(s)
+            if s0.get("kind") == "CXXMemberCallExpr" and db.callee(s0)[0] in ("emplace_back", "push_back"):
+                a = db.call_args(s0)
+                try:
+                    app.append((ev.ev(a[0]), ev.ev(a[1]), s0))
+                except Unsupported:
+                    app.append((None, None, s0))
+        pb.on_expr = on_expr2
+        pb.bind_block(body if body.get("kind") == "CompoundStmt" else {"inner": [body]})
+        if len(app) != 1 or app[0][0] is None:
+            raise AnalysisBroken("POLY.utilities: Ellipse's loop does not append exactly one arithmetic vertex")
+        # roles: the local multiplying radiusX is the cosine direction, the one multiplying radiusY the sine direction
+        names = list(outer.values())
+        role = None
+        for cx, sy in ((names[0], names[1]), (names[1], names[0])):
+            if app[0][0].same(V(c + ".x") + V(rx) * V(cx + "0")) and app[0][1].same(V(c + ".y") + V(ry) * V(sy + "0")):
+                role = (cx, sy)
+        judge(f.qual, "vertex|" + f.sig[:30], role is not None, "vertex i == center + (radiusX * dx, radiusY * dy)", app[0][2], "%s, %s" % (_short(app[0][0], 40), _short(app[0][1], 40)))
+        if role is None:
+            continue
+        cx, sy = role
+        idc = [i for i, nm in outer.items() if nm == cx][0]
+        ids = [i for i, nm in outer.items() if nm == sy][0]
+        # initial direction and rotation constants: (co, si) with the same angle
+        ini_c, ini_s = pe.env.get(idc), pe.env.get(ids)
+        okt = False
+        co = si = None
+        if isinstance(ini_c, Rat) and isinstance(ini_s, Rat):
+            for sc in [s_ for s_ in ini_c.vars() if s_ in UFUNCS and UFUNCS[s_][0] == "cos"]:
+                for ss in [s_ for s_ in ini_s.vars() if s_ in UFUNCS and UFUNCS[s_][0] == "sin"]:
+                    if ini_c.same(V(sc)) and ini_s.same(V(ss)) and UFUNCS[sc][1][0].same(UFUNCS[ss][1][0]):
+                        okt, co, si = True, V(sc), V(ss)
+        judge(f.qual, "start|" + f.sig[:30], okt, "the direction starts as (cos A, sin A) of one angle A", decl.get(cx, f.node), "%s, %s" % (_short(ini_c, 40), _short(ini_s, 40)))
+        if okt:
+            nc, ns = pb.env.get(idc), pb.env.get(ids)
+            ok = isinstance(nc, Rat) and isinstance(ns, Rat) and nc.same(V(cx + "0") * co - V(sy + "0") * si) and ns.same(V(sy + "0") * co + V(cx + "0") * si)
+            judge(f.qual, "turn|" + f.sig[:30], ok, "each step turns the direction by A: dx' = dx cosA - dy sinA, dy' = dy cosA + dx sinA (from the old dx)", loops[0],
+                  "%s, %s" % (_short(nc, 50), _short(ns, 50)))
+    # TranslatePath: the lambda's returned point
+    for f in [g for g in db.find("TranslatePath") if not g.is_pattern and g.body is not None and len(g.params) == 3]:
+        lam = [x for x in walk(f.body) if x.get("kind") == "LambdaExpr"]
+        if not lam:
+            continue                       # forwarding overloads
+        meth = [x for x in walk(lam[0]) if x.get("kind") == "CXXMethodDecl" and x.get("name") == "operator()"]
+        inst = [m for m in meth if "auto" not in (qt(m) or "")]          # a generic lambda: take the instantiated call operator
+        meth = inst or meth
+        if not meth:
+            raise AnalysisBroken("POLY.utilities: TranslatePath's lambda has no call operator")
+        prm = [c0 for c0 in kids(meth[0]) if c0.get("kind") == "ParmVarDecl"]
+        lb = [c0 for c0 in kids(meth[0]) if c0.get("kind") == "CompoundStmt"]
+        if len(prm) != 1 or not lb:
+            raise AnalysisBroken("POLY.utilities: TranslatePath's lambda has an unexpected shape")
+        pl = PolyEval(db, extended=True)
+        pl.env[prm[0].get("id")] = Agg(base="pt")
+        outs = []
+        pl.on_return = lambda ev, v, s, outs=outs: outs.append((ev._agg_of(v), s))
+        try:
+            pl.bind_block(lb[0])
+        except Unsupported as e:
+            raise AnalysisBroken("POLY.utilities: TranslatePath's lambda is not arithmetic: %s" % e)
+        if len(outs) != 1:
+            raise AnalysisBroken("POLY.utilities: TranslatePath's lambda has no single point-valued return")
+        dxn, dyn = _pname(f, 1), _pname(f, 2)
+        X, Y = outs[0][0].get("x"), outs[0][0].get("y")
+        judge(f.qual, "translate|" + f.sig[:30], X.same(V("pt.x") + V(dxn)) and Y.same(V("pt.y") + V(dyn)), "each vertex becomes (pt.x + dx, pt.y + dy)", outs[0][1],
+              "%s, %s" % (_short(X, 40), _short(Y, 40)))
+    if n < 4:
+        raise AnalysisBroken("POLY.utilities: only %d equations found in configuration %s" % (n, cfg))
+    return n
+
+
+# ---------------------------------------------------------------------------
+# POLY.intersect (second part): the touching cases of RectClip's GetSegmentIntersection
+# ---------------------------------------------------------------------------
+
+def rule_segment_cases(db, chk, cfg, rule="POLY.intersect"):
+    """GetSegmentIntersection(p1, p2, p3, p4, ip) handles the cases in which an end point of one segment lies on the line of the other:
+    under the guard `R == 0` (R a cross product) it stores one of the four end points.  That point must lie on both lines: for each
+    of the two lines the cross product (b - a) x (W - a) is identically zero or identically +-R (so it vanishes under the guard).  The
+    general case must hand both segments, each with its own two end points, to GetSegmentIntersectPt."""
+    n = 0
+    fs = [f for f in db.find("GetSegmentIntersection") if not f.is_pattern and f.body is not None and len(f.params) == 5]
+    if not fs:
+        raise AnalysisBroken("POLY.intersect: GetSegmentIntersection not found")
+    for f in fs:
+        p = [_pname(f, i) for i in range(4)]
+        ipid = f.params[4].get("id")
+        pe = PolyEval(db, extended=True)
+        pe.bind_block(f.body)
+
+        def line(a, b, w):
+            return (V(b + ".x") - V(a + ".x")) * (V(w + ".y") - V(a + ".y")) - (V(b + ".y") - V(a + ".y")) * (V(w + ".x") - V(a + ".x"))
+        for x in walk(f.body):
+            if x.get("kind") != "IfStmt":
+                continue
+            cond, then, els = if_parts(x)
+            c0 = _skip(cond)
+            if not (c0.get("kind") == "BinaryOperator" and c0.get("opcode") == "=="):
+                continue
+            try:
+                R = pe.ev(kids(c0)[0]) - pe.ev(kids(c0)[1])
+            except Unsupported:
+                continue
+            if not isinstance(R, Rat) or not R.vars() or R.tag:
+                continue
+            # the store to ip directly in this branch (not in nested branches of other guards)
+            stores = []
+            for s0 in (kids(then) if then.get("kind") == "CompoundStmt" else [then]):
+                s1 = s0
+                while isinstance(s1, dict) and s1.get("kind") == "ExprWithCleanups" and kids(s1):
+                    s1 = kids(s1)[0]
+                if isinstance(s1, dict) and s1.get("kind") == "CXXOperatorCallExpr" and db.callee(s1)[0] == "operator=" and len(kids(s1)) == 3:
+                    l = _skip(kids(s1)[1])
+                    if l.get("kind") == "DeclRefExpr" and l.get("referencedDecl", {}).get("id") == ipid:
+                        w = _skip(kids(s1)[2])
+                        if w.get("kind") == "DeclRefExpr" and w.get("referencedDecl", {}).get("name") in p:
+                            stores.append((w["referencedDecl"]["name"], s1))
+            for w, node in stores:
+                n += 1
+                probs = []
+                for a, b in ((p[0], p[1]), (p[2], p[3])):
+                    L = line(a, b, w)
+                    if not (L.is_zero() or (L - R).is_zero() or (L + R).is_zero()):
+                        probs.append("%s is not on the line through %s and %s when %s" % (w, a, b, canon(cond)[:40]))
+                ok = not probs
+                chk.instance(rule, {"function": f.qual, "guard": canon(cond)[:40], "stores": w, "obligation": "stored end point lies on both lines under the guard", "cfg": cfg}, ok=ok)
+                if not ok:
+                    chk.violation(rule, f.qual, "touch|%s|%s" % (canon(cond)[:24], w), "GetSegmentIntersection stores %s as the intersection under `%s`: %s"
+                                  % (w, canon(cond)[:50], "; ".join(probs)), where(node), cfg=cfg)
+        calls = [c for c in walk(f.body) if c.get("kind") == "CallExpr" and db.callee(c)[0] == "GetSegmentIntersectPt"]
+        for c in calls:
+            a = [canon(z) for z in db.call_args(c)]
+            n += 1
+            ok = len(a) == 5 and {frozenset(a[0:2]), frozenset(a[2:4])} == {frozenset(p[0:2]), frozenset(p[2:4])} and a[4] == _pname(f, 4)
+            chk.instance(rule, {"function": f.qual, "call": canon(c)[:70], "obligation": "general case: both segments with their own end points", "cfg": cfg}, ok=ok)
+            if not ok:
+                chk.violation(rule, f.qual, "general", "the general case calls `%s`: the two segments handed over are not (%s,%s) and (%s,%s)" % (canon(c)[:70], p[0], p[1], p[2], p[3]),
+                              where(c), cfg=cfg)
+    if n < 5:
+        raise AnalysisBroken("POLY.intersect: only %d touching cases / general calls recognised in GetSegmentIntersection" % n)
+    return n
